@@ -571,6 +571,8 @@ def check_rebuild_invariant(report, facts, rule):
 
 def check_registers(report, facts, rule):
     """REGISTERS maps n, 'n', 'xn' and the ABI name of register n to n for n = 0..31 and nothing else."""
+    from . import tablefold
+    tablefold.settle(facts, 'REGISTERS', runtime_writes_matter=False)      # entries added after the literal (REGISTERS['fp'] = 8, .update({...})); exit 2 if not foldable
     table = facts.tables.get('REGISTERS')
     if table is None:
         raise AnalysisError('anchor vanished: REGISTERS')
